@@ -124,6 +124,16 @@ check("C08", "exploration",
       "interleavings at the granularity of interposed Python-level calls on refs/, HEAD, packed-refs*, *.lock; kernel atomicity of rename/O_EXCL assumed; actors are threads with separate container objects",
       "DESIGN.md §5 C08")
 
+check("C09", "fault_enumeration",
+      "runtime crash-point enumeration: each repository-changing operation runs once under os.*/open interposition with user-space buffering emulated by the file proxies; the directory is snapshotted before every mutating system call and after the last (exactly the state a process crash leaves), power-loss variants truncate files with unsynced data, and every state goes through a post-crash checker (dulwich re-open + independent git fsck/for-each-ref); sampled real SIGKILLs under strace cross-validate",
+      "18 operations (loose/packed object ingestion, thin pack, fetch into, push into, commit, ref set/add/remove/symref, pack_refs, "
+      "pack_loose_objects, repack, gc, index, config, commit-graph, midx) x starting states {loose, packed, mixed, mixed+fsyncObjectFiles}; "
+      "all crash points per scenario (evidence lists counts); checker: Repo opens, every ref old-or-new and naming a present object, the whole "
+      "pre-operation closure readable with identical bytes, visible objects hash to their names, index/config parse to old or new, git fsck "
+      "--full --strict passes, git lists old-or-new refs.",
+      "crash boundaries are those of interposed Python-level calls; power loss = loss of unsynced file data only (no directory-operation reordering); kernel atomicity of rename assumed",
+      "DESIGN.md §5 C09")
+
 ALL = ["C%02d" % i for i in range(1, 21)]
 
 
